@@ -41,7 +41,7 @@ def parseLostInto (l : List Choose.Entry) (ts : List String) : Option (List Choo
 def parseFam (t : String) : Option Addr.Fam :=
   if t = "4" then some .v4 else if t = "6" then some .v6 else none
 
-/-- conf tokens: `C<type>` starts a block, `E<fam>:<addrhex>:<prefix>:<port>:<text>` adds a host entry (one resolved address) -/
+/-- conf tokens: `C<type>` starts a block, `E<fam>:<addrhex>:<prefix>:<port>:<text>` adds a host entry (one resolved address), `A<fam>:<addrhex>:<port>` gives the preceding entry one more resolved address -/
 def parseConfs (ts : List String) : Option (List Addr.Conf) :=
   let rec go (ts : List String) (acc : List Addr.Conf) : Option (List Addr.Conf) :=
     match ts with
@@ -57,6 +57,15 @@ def parseConfs (ts : List String) : Option (List Addr.Conf) :=
           match parseFam f, ofHex a, p.toNat?, port.toNat? with
           | some f, some a, some p, some port =>
             go rest ({ c with hostports := c.hostports ++ [{ prefixlen := p, addrs := [{ fam := f, addr := a, port := port }] }] } :: acc')
+          | _, _, _, _ => none
+        | _, _ => none
+      else if t.startsWith "A" then
+        -- one more resolved address of the preceding host entry (a name that resolves to several addresses)
+        match (t.drop 1).toString.splitOn ":", acc with
+        | [f, a, port], c :: acc' =>
+          match parseFam f, ofHex a, port.toNat?, c.hostports.reverse with
+          | some f, some a, some port, hp :: before =>
+            go rest ({ c with hostports := (({ hp with addrs := hp.addrs ++ [{ fam := f, addr := a, port := port }] }) :: before).reverse } :: acc')
           | _, _, _, _ => none
         | _, _ => none
       else none
